@@ -490,9 +490,9 @@ def _clamp_slice(x, n, ex=None):
     def ite(c, a, b):       # noqa: F811  (path-condition aware)
         if ex is not None and is_z3(c):
             cz = V.z3bool(c)
-            if not ex.feasible(z3.Not(cz)):
+            if ex.entails_quick(cz):
                 return a
-            if not ex.feasible(cz):
+            if ex.entails_quick(z3.Not(cz)):
                 return b
         return V.ite(c, a, b)
 
@@ -607,6 +607,16 @@ def _install(M):
 
     @reg("range")
     def _range(ex, a, k, l):
+        def num_(x):
+            # a bound that simplifies to a numeral (e.g. a cell of a concrete integer table) is that integer
+            if is_z3(x) and not z3.is_int_value(x):
+                y = z3.simplify(x)
+                if z3.is_int_value(y):
+                    return y.as_long()
+            if is_z3(x) and z3.is_int_value(x):
+                return x.as_long()
+            return x
+        a = [num_(x) for x in a]
         if len(a) == 1:
             return Range(0, a[0])
         if len(a) == 2:
